@@ -948,6 +948,11 @@ impl WriterProp {
             }
         }
 
+        if sink.state().budget_exceeded {
+            // the sink stopped recording (an extremely long but finite run): no verdict
+            st.hit("note.sink_call_budget_exceeded_no_verdict");
+            violation = None;
+        }
         // whatever happened above: never let the writer's Drop run outside of a catch
         if w.is_some() {
             let _ = crash::catch(|| drop(w.take()));
@@ -1050,6 +1055,7 @@ impl WriterProp {
                 }
             }
         }
+        out.retain(|c| c.sink.live());
         out
     }
 
